@@ -181,23 +181,29 @@ CLAIMS["C08"] = dict(
          "per call site); the replacement splice __apply_replacement_fix keeps every token before and after the replaced range exactly "
          "once and in order, moves the line number of exactly the tokens after the range by (lines of the replacement - lines replaced) "
          "and moves every pragma line below the range by the same amount while every other pragma stays, none lost or overwritten (loop "
-         "invariants, no bound; D12 fixed); adjust_line_number / adjust_pragma_line_number change only what they name; every character "
+         "invariants, no bound; D12 fixed); adjust_line_number / adjust_pragma_line_number change only what they name; _modify_token of all "
+         "15 token classes stores the requested value into exactly the attribute behind the named field and nothing else but the "
+         "derived extra_data, unknown field or ill-typed value changes nothing (one structural obligation per class and field); a fix "
+         "pass cut short by a failing rule or the parser has not written the user's file; every character "
          "the regenerator deletes from its output is reserved by the parser (fails: known finding D6).",
     note=TB + "Known finding D6 (thorn / U+8268 / U+8269 deleted by any token-level fix). NOT covered: that editing a style field "
               "preserves the parse (indent_level ...), the regenerator itself, that the value a rule writes into a text-carrying field "
-              "equals the old text up to whitespace, _modify_token of the 14 token classes, the line pass write-back (C10 covers who "
-              "writes when). Meaning preservation of the whole pipeline is not decided by this check.")
+              "equals the old text up to whitespace, the line pass write-back (C10 covers who writes when). Meaning preservation of the whole pipeline is not decided by this check.")
 
 CLAIMS["C06"] = dict(
-    text="Proof for the rules brought under contract (a fragment: the property quantifies over all 46 rules): MD013 -- "
-         "initialize_from_config establishes that the quick-reject threshold never exceeds any of the three limits, and next_line reports "
-         "exactly once iff the documented condition holds for the element kind of the line (limit by kind, headings / code_blocks "
-         "switches, long-last-word exemption, strict), for all lines and configurations (stern mode: known finding D13); for all 46 "
-         "rules the configuration items read by initialize_from_config (names, types, defaults) equal the documented table "
-         "(shared with C17), so 'the active configuration' is the documented one.",
-    note=TB + "Known finding D13 (MD013 stern mode inverted). NOT covered: the trigger conditions of the other 45 rules (their "
-              "token-driven state machines need the token stream specified first, C04/C05 in full); which leaf token a line belongs "
-              "to is taken from the rule's own bookkeeping (the contract quantifies over it).")
+    text="Proof for the six rules brought under contract (a fragment: the property quantifies over all 46 rules), each against a spec "
+         "automaton transcribed from the rule's documentation, for all token / line sequences and all configurations: MD013 (line "
+         "length: limit by element kind, headings / code_blocks switches, long-last-word exemption, strict; the quick-reject threshold "
+         "established by initialize_from_config never exceeds a limit), MD001 (heading increment, incl. the front-matter title and the "
+         "value the fix requests), MD025 (single top-level heading), MD035 (thematic-break style, consistent mode), MD047 (file ends "
+         "with a newline, reported at the end of the last line; fix appends exactly one newline), MD048 (code-fence style, consistent "
+         "mode, fix character): each step reports exactly once iff the documented condition holds in the automaton state, at the "
+         "token's position, and updates the state as documented; every starting_new_file re-initialises that state; for all 46 rules "
+         "the configuration items read by initialize_from_config (names, types, defaults) equal the documented table (shared with C17).",
+    note=TB + "Known finding D13 (MD013 stern mode inverted against its documentation). NOT covered: the trigger conditions of the "
+              "other 40 rules (their token-driven state machines need the token stream specified first, C04/C05 in full); which "
+              "leaf token a line belongs to (MD013) is taken from the rule's own bookkeeping; string comparisons of texts longer than "
+              "one character are by identity of the string value in the encoding (the specification uses the same comparison).")
 
 NA = {
     "C01": "totality of the ~60 kLoC parser is a postcondition of TokenizedMarkdown.transform; no contract chain within reach without a Python deductive verifier (DESIGN.md 7)",
